@@ -20,7 +20,9 @@ def main(tier):
     for PF in pools.values():
         par.check_pool(P, rep, PF)
     consumers.filter_copy(P, rep)
-    rep.assumptions.append("node placement, depth convention and connectivity of the four grid generators are NOT decided "
+    consumers.filter_call_sites(P, rep)
+    consumers.grid_depth(P, rep)
+    rep.assumptions.append("node placement and connectivity of the four grid generators are NOT decided "
                            "(index arithmetic and trigonometry over run-time sizes; DESIGN.md §4 C18)")
     rep.explanation = ("Layout agreement between gwb-grid's request list, the library's width table, the output offsets stored "
                        "into each VTU data set, dataSetInfo and filter_vtu_mesh's literal indices; same-index provenance of node "
